@@ -91,3 +91,12 @@ Theorem C02_tolerant :
 Proof. exact @C02_poly_tolerant. Qed.
 Print Assumptions C02_tolerant.
 
+Require Import PyDict PyLoop WrapGen WrapGenQuotient.
+(* ---- T1 tie: PolyhedralIoContract.quotient_tactics / quotient as translated ON THIS RUN (gen/WrapGen.v) are the model functions *)
+Theorem C02_code_quotient_tactics : forall (O : oracle) (c c1 : pcontract O) (add : option (list var)) (sp : bool) (od : option (list nat)),
+  @PolyhedralIoContract_quotient_tactics (poly_domain O) c c1 add sp od = poly_quotient_tactics O c c1 add sp od.
+Proof. exact wrap_quotient_tactics_eq. Qed.
+Theorem C02_code_quotient : forall (O : oracle) (c c1 : pcontract O) (add : option (list var)) (sp : bool),
+  @PolyhedralIoContract_quotient (poly_domain O) c c1 add sp = bind (poly_quotient_tactics O c c1 add sp None) (fun p => ret (fst p)).
+Proof. exact wrap_quotient_eq. Qed.
+Print Assumptions C02_code_quotient_tactics. Print Assumptions C02_code_quotient.
